@@ -45,6 +45,7 @@ REQUIRED_REACH = [
     "fault_fired:read:ips_in:EIO",
     "probe:directive_in_macro_or_loop",
     "probe:patch_from_a816_ipswriter",
+    "probe:patch_included_twice",
 ]
 
 FREE_LO, FREE_HI = 0x100000, 0x2F0000  # physical zone the host never writes (far banks are off)
@@ -143,6 +144,8 @@ def gen_case(cseed: int, tier: str) -> dict[str, Any]:
         "delta_form": dform,
         "slot": slot,
         "via_writer": w.random() < 0.15 and all(r[1] == "plain" for r in recs),
+        "second_delta": (delta + 0x400000) if w.random() < 0.3 else None,
+        "patch_path": w.choice(["p.ips", "p.ips", "sub/p.ips", "a b/p-1.ips"]),
     }
 
 
@@ -170,7 +173,12 @@ def host_with_directive(case: dict[str, Any]) -> progen.Prog:
     else:
         expr = f"{delta:#x}" if delta >= 0 else f"-{-delta:#x}"
         slot = case["slot"]
-    return progen.insert_at(prog, slot, {"k": "include_ips", "t": f".include_ips 'p.ips', {expr}"})
+    path = case.get("patch_path") or "p.ips"
+    prog = progen.insert_at(prog, slot, {"k": "include_ips", "t": f".include_ips '{path}', {expr}"})
+    if case.get("second_delta") is not None:
+        # the same stored patch included a second time with another delta (targets 4 MiB further up)
+        prog.root.append({"k": "include_ips", "t": f".include_ips '{path}', {case['second_delta']:#x}"})
+    return prog
 
 
 def _make_with_writer(blocks: list[tuple[int, bytes]]) -> bytes:
@@ -239,10 +247,11 @@ def run_single(case: dict[str, Any], stats: Stats) -> list[Violation]:
     stored = apply_damage(good, dmg)
     files = prog.all_files()
     roles = prog.all_roles()
-    roles["p.ips"] = "ips_in"
+    ppath = case.get("patch_path") or "p.ips"
+    roles[ppath] = "ips_in"
     faults = case.get("faults") or []
     if not case.get("missing"):
-        files["p.ips"] = stored
+        files[ppath] = stored
     knobs = case.get("knobs") or {}
     spec = {"entry": "string", "src": "main.s", "rom": host.mapping}
     o = entries.execute_one(files, roles, spec, knobs, faults)
@@ -256,6 +265,8 @@ def run_single(case: dict[str, Any], stats: Stats) -> list[Violation]:
         stats.bump("probe:rle_record")
     if case.get("via_writer"):
         stats.bump("probe:patch_from_a816_ipswriter")
+    if case.get("second_delta") is not None:
+        stats.bump("probe:patch_included_twice")
     if case["slot"]["ctx"] in ("macro_def", "for"):
         stats.bump("probe:directive_in_macro_or_loop")
     bs = knobs.get("bufsize") or 8192
@@ -298,6 +309,9 @@ def run_single(case: dict[str, Any], stats: Stats) -> list[Violation]:
             if len(data) and host_img.get(t + len(data) - 1) is not None:
                 return None
             img.write(t, data)
+        if case.get("second_delta") is not None:
+            for rec in records:
+                img.write(rec[0] + case["second_delta"], ipsref.record_bytes(rec))
         return img
 
     must_fail = klass in ("missing_header", "truncated_record", "missing") or bool(o["fired"])
@@ -386,9 +400,9 @@ def sub_cases(case: dict[str, Any]) -> Iterator[dict[str, Any]]:
     kn = {"bufsize": rng.choice([16, 32, 64, 4096])}
     prog = host_with_directive(case)
     files = prog.all_files()
-    files["p.ips"] = good
+    files[case.get("patch_path") or "p.ips"] = good
     roles = prog.all_roles()
-    roles["p.ips"] = "ips_in"
+    roles[case.get("patch_path") or "p.ips"] = "ips_in"
     o = entries.execute_one(files, roles, {"entry": "string", "src": "main.s", "rom": prog.mapping}, kn, [])
     reads = [p for p in o["points"] if p[0] == "ips_in" and p[1] == "read"]
     if len(reads) > 24:
@@ -449,6 +463,10 @@ def shrink_candidates(case: dict[str, Any]) -> Iterator[dict[str, Any]]:
         c = dict(case)
         c["via_writer"] = False
         yield c
+    if case.get("second_delta") is not None:
+        yield dict(case, second_delta=None)
+    if case.get("patch_path") not in (None, "p.ips"):
+        yield dict(case, patch_path="p.ips")
     if case.get("delta") and not case.get("damage"):
         c = dict(case)
         c["delta"] = 0
